@@ -32,7 +32,7 @@ Fixpoint to_pv (t : tmpl) : option T.pv :=
    Float.custom_apply:  the spec is a Float whose range contains [lo, hi];
    a constant candidate: value_spec.apply(c) succeeds.
    CustomHyper.custom_apply accepts every spec, so nothing is guaranteed for it; candidates that are containers with
-   placeholders inside are validated field by field by the spec's own apply — not covered by this predicate. *)
+   placeholders inside are validated field by field by the spec's own apply — covered for lists (below), not for dicts / objects. *)
 Fixpoint bound (sp : T.spec) (t : tmpl) : Prop :=
   match t with
   | TOneOf cands _ => all_P (bound sp) cands
@@ -45,5 +45,12 @@ Fixpoint bound (sp : T.spec) (t : tmpl) : Prop :=
       | T.SFloat flo fhi m => T.frozen m = false /\ T.in_range flo fhi lo = true /\ T.in_range flo fhi hi = true
       | _ => False end
   | TCustom _ _ => False
+  | TList ts =>
+      (* a constant list, or a list with placeholders inside in a List field: List.apply validates element by element
+         (a placeholder element by its own custom_apply against the element spec) and the length against the bounds *)
+      (hypers_of t = [] /\ exists v, to_pv t = Some v /\ T.accepts sp v) \/
+      match sp with
+      | T.SList e mn mx m => T.frozen m = false /\ T.size_ok mn mx (Z.of_nat (length ts)) = true /\ all_P (bound e) ts
+      | _ => False end
   | _ => hypers_of t = [] /\ exists v, to_pv t = Some v /\ T.accepts sp v
   end.
